@@ -151,8 +151,19 @@ func (a *ArrNode) Read(i *Term) *Term {
 			ks = append(ks, k)
 		}
 		sort.Slice(ks, func(x, y int) bool { return ks[x] < ks[y] })
-		for _, k := range ks {
-			r = Ite(Eq(i, IX(k)), a.cmap[k], r)
+		// runs of consecutive positions holding the same term (constant tables such as
+		// utf8.first) become one range test
+		for x := 0; x < len(ks); {
+			y := x
+			for y+1 < len(ks) && ks[y+1] == ks[y]+1 && a.cmap[ks[y+1]] == a.cmap[ks[x]] {
+				y++
+			}
+			if y == x {
+				r = Ite(Eq(i, IX(ks[x])), a.cmap[ks[x]], r)
+			} else {
+				r = Ite(And(Cmp("bvsle", IX(ks[x]), i), Cmp("bvsle", i, IX(ks[y]))), a.cmap[ks[x]], r)
+			}
+			x = y + 1
 		}
 		return r
 	case 2:
